@@ -197,12 +197,13 @@ def run(chk):
         p = os.path.join(os.path.dirname(os.path.dirname(os.path.abspath(__file__))), "fixtures", "impure_example.py")
         tree = ast.parse(open(p).read())
         res = {q: effects.analyse_function(n) for _, q, n, _ in effects.functions_of(tree, "fixture")}
-        for q in ("writes_item", "appends", "deletes"):
+        for q in ("writes_item", "appends", "deletes", "writes_after_alias_in_branch", "writes_in_closure"):
             if not res.get(q):
                 raise Inconclusive(f"effect analysis missed the impure fixture function {q}")
-        if res.get("pure"):
-            raise Inconclusive(f"effect analysis reported the pure fixture function: {res['pure']}")
-        return "fixture: 3 impure functions reported, pure one silent"
+        for q in ("pure", "pure_fresh_in_one_branch", "pure_rebound"):
+            if res.get(q):
+                raise Inconclusive(f"effect analysis reported the pure fixture function {q}: {res[q]}")
+        return "fixture: 5 impure functions reported, 3 pure ones silent"
     chk.run("C20.R0", "jv/fixtures/impure_example.py", {}, selfcheck, nontrivial=False)
 
 
